@@ -14,6 +14,18 @@ CHECKS = {
             "cannot. Exhaustive inside the bound, sampled outside; never a proof.",
             "Trusts the 30-line sparse model; acceptance of empty chunks and the cursor after a rejected insert are not asserted.",
             "DESIGN.md section 5 C11"),
+    "C01": ("exploration", "Hypothesis-generated declarations x value-first inputs; differential against an independent reference parser (consumed/skipped/traversed byte sets vs pack())",
+            "Random declaration families over the whole supported language, inputs constructed from value trees (plus tails, offsets, arbitrary hole bytes, flips, random strings); for every accepted input the reference parser says which bytes were consumed, skipped and traversed and pack() is compared position by position; overlapping reads must make pack() raise PacketError. Sampled, not exhaustive.",
+            "Trusts bv/ir.py (reference parser written from the docs); start-of-data references only at offset 0; excluded declarations as listed by the property.", "DESIGN.md section 5 C01"),
+    "C02": ("exploration", "Hypothesis-generated declarations x consistent value trees; pack() vs independent reference encoder, re-parse round trip",
+            "Value trees are drawn to satisfy the declaration and built by constructor and by attribute assignment; pack() must equal the reference encoding byte for byte, unpack(pack()) must give back equal values and the reference end offset, assert_consistency() must be True.",
+            "Trusts bv/ir.py encoder/parser; consistency of a tree is decided by the reference model; regex delimiters not kept are excluded.", "DESIGN.md section 5 C02"),
+    "C04": ("exploration", "Hypothesis-generated declarations stratified over all integer widths / bit-group sizes x every truncation point of valid encodings, corruptions, random strings; oracle = reference parser with explicit bounds checks",
+            "For each generated declaration and valid encoding every truncation point (<=64 per encoding) is fed to unpack; any accepted input must also be accepted by the bounds-checking reference parser with equal values; silent=True must agree with raising.",
+            "Trusts bv/ir.py; sampled declarations; truncation points exhaustive per encoding up to the cap.", "DESIGN.md section 5 C04"),
+    "C08": ("exploration", "Hypothesis-generated declarations weighted to repeated/optional/referenced fields x valid, truncated, corrupted, random inputs; two-directional differential (values, end offset, accept/reject) against the reference parser",
+            "Every input is parsed by bisturi and by the reference interpreter of the declaration; list lengths, element values, Nones, nested packets, the position where parsing continues and accept/reject must agree in both directions.",
+            "Trusts bv/ir.py; run-time selected fields restricted to option-independent ones.", "DESIGN.md section 5 C08"),
 }
 
 NOT_YET = {}
